@@ -18,4 +18,7 @@ def run(ck):
 
 
 def replay(ck, path):
+    import json
+    if "rig_case" in json.load(open(path)):
+        return rigcheck.replay(ck, path, "reads")
     cpucheck.replay(ck, path)
